@@ -234,45 +234,3 @@ Ltac fin :=
 Ltac destruct_chans :=
   repeat match goal with c : chan |- _ => destruct c end.
 
-(* ------------------------------------------------------------------------------------------ *)
-(* preservation                                                                                 *)
-Ltac destruct_world w :=
-  let c := fresh "c" in let v := fresh "v" in
-  destruct w as [c v li dq cx rc c2 cb ss g1 g2 g3 lcg lcd lwc ld sk lx rn sx ac dl n1 n2 n3 n4 n5];
-  destruct c as [cg sh cd sc wc rcc cr sw chn sd wk rv dn mx pk wt lk];
-  destruct v as [cg' sh' cd' sc' wc' rcc' cr' sw' chn' sd' wk' rv' dn' mx' pk' wt' lk'].
-
-Ltac destruct_pc_args :=
-  repeat match goal with
-  | d : side |- _ => destruct d
-  | r : ret |- _ => destruct r
-  | r : ret2 |- _ => destruct r
-  end.
-
-Ltac use_section Hok :=
-  match goal with
-  | E : shutdown_section ?s = _ |- _ =>
-      let s' := fresh "s'" in let F := fresh "F" in
-      destruct (shutdown_section_ok s Hok) as [s' F];
-      destruct F as (F0 & F1 & F2 & F3 & F4 & F5 & F6 & F7 & F8 & F9 & F10 & F11);
-      rewrite F0 in E; inversion E; subst; clear E;
-      destruct s'; cbn in F1, F2, F3, F4, F5, F6, F7, F8, F9, F10, F11; subst
-  end.
-
-Lemma step_inv pool w i p w' p' :
-  Inv pool w -> nth_error pool i = Some p -> exec New p w = Step w' p' -> Inv (set_nth i p' pool) w'.
-Proof.
-  intros HI Hn He.
-  cnt_facts i p p' pool Hn.
-  destruct HI.
-  destruct_world w.
-  destruct p; destruct_pc_args; cbn in He;
-    repeat (break_match_hyp He; try discriminate);
-    try (use_section i_okc0); try (use_section i_okv0);
-    inversion He; subst; clear He;
-    cbn in *.
-  all: constructor; cbn.
-  all: try fin.
-  all: try (destruct_chans; cbn in *; fin).
-  Show 1. Show 2. Show 3. Show 40. Show 80.
-Abort.
